@@ -323,6 +323,25 @@ add('C19',
     "tested); noise allowance = 20 x the largest change of the reference "
     "under ten 1e-15..1e-12 perturbations of the layers.")
 
+add('C18',
+    "exhaustive enumeration of every documented key / command-line option "
+    "alone plus Hypothesis-random combinations; differential oracle CLI vs "
+    "Python API through the checker's own option table (transcribed from "
+    "docs/manual/cli.rst and cross-checked against it at run time)",
+    "Exploration with an exhaustive sub-domain: each of the 58 documented "
+    "keys (literal doc example and generated values) and each command-line "
+    "option is run alone through emg3d.cli.main.main on a tiny problem and "
+    "compared bit-for-bit with the equivalent API calls (data, misfit, "
+    "gradient, n_observations, saved simulation; with noise: NaN pattern and "
+    "noise-type identities); random combinations over gridding/layered/load "
+    "x forward/misfit/gradient x h5/npz/json x save/load/cache/clean/dry "
+    "run; command line must override the config file; unknown keys, "
+    "sections and flags must be rejected without output; a sub-sample runs "
+    "python -m emg3d as subprocess.",
+    "Trusted: the checker-side option table in vp/checks/c18_cli.py (a "
+    "mismatch with cli.rst of the tree under test is a harness error). "
+    "Real runs use max_workers=1 (pools are C11's subject).")
+
 NOT_BUILT = "check not built yet (see DESIGN.md section 3 for the plan)"
 
 
